@@ -353,6 +353,9 @@ func checkC14(c *Ctx, e *Env) {
 		}
 		c.Check(ok, "C14.SEP", "parser:"+fnName, p.Pos(fn.Pos()), fmt.Sprintf("parser compares runes with '-' (and the dash ordinal 2 for project ids): constants %v", consts))
 	}
+	nDim := ruleKeyDims(c, m, "C14.KEYDIM", func(pkg string) bool { return strings.Contains(pkg, "/keeper") })
+	c.Count("key_dimension_sites", nDim)
+	c.Min("key-dimension sites in keepers", 40, nDim)
 	ruleSequences(c, p, r)
 	ruleUniqueAndFK(c, m, r)
 	c.Min("automata product states explored", 100, states)
